@@ -610,7 +610,7 @@ func body(t *Term) string {
 
 // emitDefs appends the (declare-const / define-fun) lines needed for t that
 // have not been sent yet, children first.
-func emitDefs(t *Term, sb *strings.Builder) {
+func emitDefs(t *Term, sb *strings.Builder, rec *[]*Term) {
 	if t == nil || t.emitted {
 		return
 	}
@@ -628,17 +628,18 @@ func emitDefs(t *Term, sb *strings.Builder) {
 			continue
 		}
 		if x.op == OpConst {
-			x.emitted = true
 			continue
 		}
 		if x.op == OpVar {
 			fmt.Fprintf(sb, "(declare-const |%s| %s)\n", x.name, sortName(x.w))
 			x.emitted = true
+			*rec = append(*rec, x)
 			continue
 		}
 		if it.done {
 			fmt.Fprintf(sb, "(define-fun n%d () %s %s)\n", x.id, sortName(x.w), body(x))
 			x.emitted = true
+			*rec = append(*rec, x)
 			continue
 		}
 		stack = append(stack, item{x, true})
